@@ -1123,12 +1123,25 @@ func (og *opgen) selset(tn string, depth int) []*Sel {
 	// a named fragment on this type that exists already, spread here once more (the same definition at two places)
 	if g.cfg.Wide && !g.cfg.Off["frag"] && len(og.named[tn]) > 0 && g.chance(0.3) {
 		old := og.named[tn][g.pick(len(og.named[tn]))]
-		clash := false
-		for _, x := range out {
-			for _, y := range old.Sub {
-				if x.K == "F" && y.K == "F" && x.Key == y.Key {
-					clash = true // the response keys must not collide with what is selected here
+		// the response keys of the fragment must not collide with what is selected here already (a key selected
+		// twice under different conditions is not what this feature is about)
+		var keys func(ss []*Sel, acc map[string]bool)
+		keys = func(ss []*Sel, acc map[string]bool) {
+			for _, x := range ss {
+				if x.K == "F" {
+					acc[x.Key] = true
+				} else {
+					keys(x.Sub, acc)
 				}
+			}
+		}
+		here, there := map[string]bool{}, map[string]bool{}
+		keys(out, here)
+		keys(old.Sub, there)
+		clash := false
+		for k := range there {
+			if here[k] {
+				clash = true
 			}
 		}
 		if !clash && old != nil {
